@@ -377,8 +377,8 @@ func objectLiteralSites(ts *tmpl.Set) int {
 
 // ---------------------------------------------------------------- R03.2
 
-func kInt(n int64) peval.Val  { return peval.K(constant.MakeInt64(n)) }
-func kBool(b bool) peval.Val  { return peval.K(constant.MakeBool(b)) }
+func kInt(n int64) peval.Val     { return peval.K(constant.MakeInt64(n)) }
+func kBool(b bool) peval.Val     { return peval.K(constant.MakeBool(b)) }
 func kFloat(f float64) peval.Val { return peval.K(constant.MakeFloat64(f)) }
 
 func bools(n int) [][]bool {
@@ -1680,14 +1680,15 @@ func checkParamValidation(c *core.Ctx, r *core.Rule, exp *core.Expansion) {
 // ---------------------------------------------------------------- R03.8 (S2)
 
 // checkGeneratedValidators: consistency of the generated validation code itself.
-//  (a) every regexMap["k"] / ratMap["k"] index uses a key the package-level map literal defines (a missing key yields
-//      a nil matcher, which validate.String treats as "no pattern");
-//  (b) no call of validate.Array.ValidateLength(len(x)) sits behind a branch on len(x): the emptiness of the value must
-//      not decide whether its length is checked;
-//  (c) a struct member outside the required mask whose type is a named slice / pointer type with its own Validate
-//      method is acceptable when nil: that method must not start by refusing the nil receiver;
-//  (d) oneOf inference by unique members looks at every key: the key switch is not skipped once a variant was found
-//      (otherwise a document matching two variants is accepted).
+//
+//	(a) every regexMap["k"] / ratMap["k"] index uses a key the package-level map literal defines (a missing key yields
+//	    a nil matcher, which validate.String treats as "no pattern");
+//	(b) no call of validate.Array.ValidateLength(len(x)) sits behind a branch on len(x): the emptiness of the value must
+//	    not decide whether its length is checked;
+//	(c) a struct member outside the required mask whose type is a named slice / pointer type with its own Validate
+//	    method is acceptable when nil: that method must not start by refusing the nil receiver;
+//	(d) oneOf inference by unique members looks at every key: the key switch is not skipped once a variant was found
+//	    (otherwise a document matching two variants is accepted).
 func checkGeneratedValidators(c *core.Ctx, exp *core.Expansion) {
 	r := c.NewRule("R03.8", "S2", "generated validators: map keys defined, length checks unconditional on length, optional members may be nil, unique-member inference scans every key", 40)
 	for _, fx := range exp.Fixtures {
